@@ -796,6 +796,40 @@ def main(ctx, replay):
             C.report(ctx, "dequeue-batch", "; ".join(problems), {"kind": "request", "case": {"concurrency": c[0], "targets": c[1]}, "observed": [b, mb]})
 
     tick("real+arith")
+    # ---- real HTTPDeliverer + real PushDispatcher: a policy denial that only arises on a redirect hop, a scheme denial and a
+    #      literal-address denial must each be dead-lettered as policy_denied after exactly the sends that preceded the denial, never retried
+    try:
+        pol = [{"https_only": "off", "redirects": "on", "rebind": "on", "allow": [], "deny": []},
+               {"https_only": "on", "redirects": "on", "rebind": "off", "allow": [], "deny": ["evil.example"]}]
+        dns_pub = {"a.example": [{"err": False, "ips": ["01010101"]}], "evil.example": [{"err": False, "ips": ["08080808"]}]}
+        pcases = [
+            {"policy": 0, "chain": ["http://a.example/x", "http://169.254.169.254/latest"], "codes": [302], "dns": dns_pub, "mode": "push", "_sends": 1},
+            {"policy": 0, "chain": ["http://a.example/x", "http://a.example/y", "http://127.0.0.1/z"], "codes": [307, 307], "dns": dns_pub, "mode": "push", "_sends": 2},
+            {"policy": 1, "chain": ["https://a.example/x", "https://evil.example/y"], "codes": [308], "dns": dns_pub, "mode": "push", "_sends": 1},
+            {"policy": 1, "chain": ["https://a.example/x", "http://a.example/y"], "codes": [301], "dns": dns_pub, "mode": "push", "_sends": 1},
+            {"policy": 0, "chain": ["http://127.0.0.1/x"], "codes": [], "dns": {}, "mode": "push", "_sends": 0},
+        ]
+        rc, out, err = C.harness_run(H, ["egress-run"], {"policies": pol, "cases": [{k: v for k, v in c.items() if not k.startswith("_")} for c in pcases]}, timeout=300)
+        if rc == 0:
+            for c, r in zip(pcases, json.loads(out)["cases"]):
+                evaluations += 1
+                nontrivial.add(("real-denial", tuple(c["chain"])))
+                probs = []
+                if r.get("state") != "dead" or r.get("dead_reason") != "policy_denied":
+                    probs.append("message is %s/%s, want dead/policy_denied" % (r.get("state"), r.get("dead_reason")))
+                if len(r.get("sent") or []) != c["_sends"]:
+                    probs.append("%d requests were sent, want %d (a denial must not be retried)" % (len(r.get("sent") or []), c["_sends"]))
+                if r.get("attempts") not in (None, 0, 1):
+                    probs.append("%s attempts recorded, want 1" % r.get("attempts"))
+                if probs:
+                    C.report(ctx, "real-deliverer-denial:%s" % ("redirect-hop" if len(c["chain"]) > 1 else "target"),
+                             "policy denial through the real HTTPDeliverer and PushDispatcher: " + "; ".join(probs),
+                             {"kind": "request", "case": {k: v for k, v in c.items() if not k.startswith("_")}, "policy": pol[c["policy"]], "observed": r})
+        else:
+            ctx.notes.append("egress-run (real deliverer denial scenarios) not available: " + err[-300:])
+    except (OSError, ValueError, KeyError) as e:
+        ctx.notes.append("real deliverer denial scenarios skipped: %r" % (e,))
+    tick("real-denial")
     dist["timing_s"] = timing
     model_evaluated = all(x is not None for x in (mres, fres, qres, cres, m_ttl, m_bat))
     cov.update({
